@@ -49,12 +49,18 @@ EXHAUSTIVE = {
                 "each of the 8 recognisers",
 }
 TRUSTED = [
-    "not modelled (R): the PQ-tree code of consecutive_ones.py (reorder_sets, P/Q.set_contiguous, simplify, flatten): "
-    "compared with the verified reference c1p_decide while the number of columns is <= 8 and through the verified "
-    "checker c1p_check at every size",
+    "the PQ-tree code of consecutive_ones.py is MIRRORED (Model/PQTree.v) and the mirror is proved total (only "
+    "ValueError) and SOUND (pq_reorder_sound: every answer is accepted by sets_check; chained to pq_solve_sound, "
+    "pq_isC1P_sound and the six recognisers); NOT proved: completeness (ValueError only if no arrangement exists) - "
+    "this half is compared with the verified references sets_decide / c1p_decide while the permuted dimension is "
+    "<= 8 and, beyond, through planted certificates",
     "floats of is_dichotomous_euclidean are converted exactly with fractions.Fraction (positions are halves of small "
     "integers, exact in IEEE double)",
     "numpy array construction / transpose / vstack / argwhere",
+    "MIRRORED (Model/PQTree.v): reorder_sets and the whole PQ-tree code; the mirror's result must EQUAL the "
+    "implementation's (same ordering, ValueError iff Err ValueErr) on every contract-test family; the order in which "
+    "reorder_sets visits the elements (iteration order of the CPython set set().union(*sets)) is a parameter of the "
+    "mirror and is read off the same expression by the harness",
     "reorder_sets is additionally called directly on duplicate-free families of ascending index tuples (contract "
     "test: the result is accepted by sets_check, ValueError iff sets_decide says no arrangement exists); if the "
     "helper is not importable these cases are skipped, not failed",
@@ -97,11 +103,19 @@ def _family(rows, nc, order=None):
     return fam
 
 
-def _rcase(rows, nc, hidden=None, **tags):
-    """contract test of reorder_sets on the duplicate-free family of column sets of a matrix"""
+def _rcase(rows, nc, hidden=None, spread=None, **tags):
+    """contract test of reorder_sets on the duplicate-free family of column sets of a matrix; spread = an increasing
+    map of the row indices to sparse integers (makes the iteration order of set().union(*sets) non-monotone)"""
+    f = (lambda fam: [[spread[i] for i in k] for k in fam]) if spread else (lambda fam: fam)
     if hidden is not None:
-        tags["planted"] = _family(rows, nc, hidden)
-    return case("c05.reorder", [_family(rows, nc)], **tags)
+        tags["planted"] = f(_family(rows, nc, hidden))
+    if spread:
+        tags["spread"] = 1
+    return case("c05.reorder", [f(_family(rows, nc))], **tags)
+
+
+def _spread(rng, nr):
+    return sorted(rng.sample(range(0, 300), nr))      # elements are unary nat in the model: keep them small
 
 
 def _icase(dom, alts, ballots, **tags):
@@ -455,7 +469,7 @@ def generate(tier, seed):
             out.append(_mcase(rows, nc, gen="planted", **({"planted": hidden} if hidden is not None else {})))
     nblk = 1500 if quick else 15000
     for i in range(nblk):
-        nc = rng.randint(4, 8)
+        nc = rng.randint(4, 7 if quick else 8)
         out.append(_mcase(_block_matrix(rng, nc), nc, gen="blocks"))
     nbig = 60 if quick else 600
     for i in range(nbig):
@@ -495,13 +509,13 @@ def generate(tier, seed):
         else:
             rows, hidden = _deep_matrix(rng, nr, nc, flips=rng.choice([0, 0, 0, 1, 2]))
             out.append(_mcase(rows, nc, gen="deep8-12", big=1, **({"planted": hidden} if hidden is not None else {})))
-    nwrap_m = 12000 if quick else 150000
+    nwrap_m = 10000 if quick else 150000
     for i in range(nwrap_m):        # depth >= 2 wrappers: planted certificate / reference + check of every order
         nr, nc = rng.randint(7, 10), rng.randint(6, 12)
         rows, hidden = _wrap_matrix(rng, nr, nc, flips=i % 2)
         tags = {"big": 1} if (nc > 7 or i % 4 > 1) else {}
         out.append(_mcase(rows, nc, gen="wrap", **tags, **({"planted": hidden} if hidden is not None else {})))
-    ntall = 15000 if quick else 150000
+    ntall = 12000 if quick else 150000
     for i in range(ntall):          # many rows, near misses: a false True always carries an invalid column order
         nr, nc = rng.randint(7, 10), rng.randint(5, 9)
         if i % 3 == 2:
@@ -526,7 +540,7 @@ def generate(tier, seed):
             if key not in seen_fam:
                 seen_fam.add(key)
                 out.append(c_)
-    nfam = 10000 if quick else 120000
+    nfam = 8000 if quick else 120000
     for i in range(nfam):
         kind = i % 6
         if kind in (0, 1):
@@ -541,7 +555,7 @@ def generate(tier, seed):
         else:
             nr, nc = rng.randint(3, 8), rng.randint(4, 9)
             rows, hidden = _uniform_matrix(rng, nr, nc), None
-        out.append(_rcase(rows, nc, hidden, form=i % 2, gen="fam"))
+        out.append(_rcase(rows, nc, hidden, spread=(_spread(rng, nr) if i % 5 == 0 else None), form=i % 2, gen="fam"))
     nfb = 3000 if quick else 30000
     for i in range(nfb):                       # large families: planted certificate + check of the returned order
         nr, nc = rng.randint(6, 30), rng.randint(10, 40)
@@ -779,14 +793,17 @@ def _run_reorder(fam, form):
         return [2]                 # the helper is internal: its absence is not a violation of the property
     sets = [tuple(s_) for s_ in fam]
     arg = list(sets) if form == 0 else dict.fromkeys(sets).keys()      # isC1P passes a list, the solver dict keys
+    # the order in which reorder_sets will visit the elements ("for i in set().union(*sets)"): CPython's set
+    # iteration order, a parameter of the mirrored algorithm
+    elems = [int(x) for x in set().union(*sets)]
     try:
         res = reorder_sets(arg)
     except ValueError:
-        return [0]
+        return [0, [], elems]
     try:
-        return [1, [[int(x) for x in s_] for s_ in res]]
+        return [1, [[int(x) for x in s_] for s_ in res], elems]
     except Exception:
-        return [1, [[-1]]]
+        return [1, [[-1]], elems]
 
 
 def impl(c):
@@ -825,8 +842,10 @@ def _plan(c, r):
             plan.append(("ref", "c05.sets_decide", [fam]))
         if "planted" in tags:
             plan.append(("planted", "c05.sets_check", [fam, tags["planted"]]))
-        if okres and r[1][0] == 1:
-            plan.append(("witness", "c05.sets_check", [fam, r[1][1]]))
+        if okres:
+            # exact agreement with the mirror; by pq_reorder_sets_check (proved) an answer equal to the mirror's is
+            # accepted by sets_check, so the separate witness check is only needed when the mirror is not asked
+            plan.append(("mirror", "c05.pq_reorder", [r[1][2], fam]))
         return plan
     if op == "c05.matrix":
         nc, rows = pl
@@ -914,7 +933,18 @@ def judge(c, r, mres):
             return {"kind": "broken-correspondence", "reason": "generator bug: embedded core not refuted by the model"}
         if v != 0:
             return "%s verdict True although the matrix contains a submatrix refuted by the verified reference" % what
-    if v == 1 and ans.get("witness") != 1:
+    if "mirror" in ans:
+        # the mirrored algorithm (Model/PQTree.v) is deterministic given the element order: exact agreement
+        mir = ans["mirror"]
+        if v == 1 and mir != [0, val[1]]:
+            return {"kind": "mismatch", "theorem": "Model/PQTree.v pq_reorder (mirror)",
+                    "reason": "reorder_sets returned %r, the mirrored PQ-tree algorithm %r (element order %r)"
+                              % (val[1], mir, val[2])}
+        if v == 0 and mir != [1, 3]:
+            return {"kind": "mismatch", "theorem": "Model/PQTree.v pq_reorder (mirror)",
+                    "reason": "reorder_sets raised ValueError, the mirrored PQ-tree algorithm answers %r (element order %r)"
+                              % (mir, val[2])}
+    if v == 1 and "mirror" not in ans and ans.get("witness") != 1:
         return "%s returned a witness that the verified checker rejects: %r" % (what, val[1])
     if c["op"] == "c05.matrix":
         for name, iv in (("list", val[2]), ("ndarray", val[3])):
@@ -988,7 +1018,10 @@ def stats(c, r, m):
         return out_
     if c["op"] == "c05.reorder":
         nf = len(c["payload"][0])
+        el = r[1][2] if (isinstance(r, list) and len(r) == 2 and r[0] == 0 and len(r[1]) == 3) else []
         return ["reorder_sets verdict=%s" % v, "reorder_sets %s" % ref,
+                "reorder_sets element order %s" % ("ascending" if el == sorted(el) else "NOT ascending"),
+                "reorder_sets mirror compared (exact)",
                 "reorder_sets family size %s" % (nf if nf < 5 else ("5-7" if nf <= 7 else ">=8"))]
     if c["op"] == "c05.matrix":
         nc, rows = c["payload"]
